@@ -177,8 +177,17 @@ class Variable(FortranObj):
                 return None, known_types
             desc_obj_name = type_match.group(2).strip().lower()
             if desc_obj_name not in known_types:
+                search_scope = self.parent
+                # The components of a derived type are not type names: a TYPE/CLASS
+                # name is looked up in the scope that holds the type definition
+                if (
+                    var_type in ("type", "class")
+                    and search_scope.get_type() == CLASS_TYPE_ID
+                    and search_scope.parent is not None
+                ):
+                    search_scope = search_scope.parent
                 type_def = find_in_scope(
-                    self.parent,
+                    search_scope,
                     desc_obj_name,
                     obj_tree,
                     interface=interface,
